@@ -604,6 +604,68 @@ pub fn run(report: &mut Report, replay: Option<&str>) {
         for (k, v) in stats.counts { report.count(&format!("return-shapes:{}", k), v); }
         report.exhaustive.insert("module final statement: none / return with 0, 2, 3 values × direct or nested × once or twice × mode".to_owned(), true);
     }
+    // ---- paths that are component-wise suffixes of one another (a root directory name nested again)
+    let nested_per_thread: usize = if thorough { 50 } else { 10 };
+    report.parallel(threads, |tid, r| {
+        let mut model = Model::spawn();
+        let mut stats = Stats::default();
+        let mut rng = Rng::new(seed.wrapping_mul(613).wrapping_add(tid as u64));
+        for _ in 0..nested_per_thread {
+            let case = g::nested_roots(&mut rng);
+            let rendered = g::render(&case);
+            let combos = combos_for(&mut rng, thorough);
+            case_stats(r, &case, &rendered);
+            r.hist("family", "nested-root-suffix-paths");
+            let failures = check_rendered(&mut model, &mut stats, &rendered, &combos);
+            r.case(Some(&rendered.files));
+            if !failures.is_empty() {
+                report_failures(&mut model, r, Some(&case), &rendered, &combos, failures);
+            }
+        }
+        for (k, v) in stats.counts { r.count(&format!("nested:{}", k), v); }
+    });
+    // every digraph on ≤ 3 files laid out as nested suffixes
+    for n in 2..=3usize {
+        let total: u32 = 1u32 << (n * n);
+        report.parallel(threads, |tid, r| {
+            let mut model = Model::spawn();
+            let mut stats = Stats::default();
+            let mut mask = tid as u32;
+            while mask < total {
+                let mode = if mask % 2 == 0 { Mode::Path } else { Mode::Luau };
+                let case = g::small_graph_nested(n, mask, mode);
+                let rendered = g::render(&case);
+                let combos = [Combo { generator: GENERATORS[(mask as usize / 2) % 3], rules: false }];
+                let failures = check_rendered(&mut model, &mut stats, &rendered, &combos);
+                r.case(Some(("small-nested", n, mask)));
+                if !failures.is_empty() {
+                    report_failures(&mut model, r, Some(&case), &rendered, &combos, failures);
+                }
+                mask += threads as u32;
+            }
+            for (k, v) in stats.counts { r.count(&format!("small-nested:{}", k), v); }
+        });
+        report.exhaustive.insert(format!("all digraphs on {} files with nested-suffix paths", n), true);
+    }
+    // ---- enumerated: numeric boundary values in bundled data files
+    {
+        let mut model = Model::spawn();
+        let mut stats = Stats::default();
+        let mut rng = Rng::new(seed.wrapping_mul(23));
+        for case in g::data_boundaries() {
+            let rendered = g::render(&case);
+            let combos = combos_for(&mut rng, thorough);
+            case_stats(report, &case, &rendered);
+            report.hist("family", "data-boundaries");
+            let failures = check_rendered(&mut model, &mut stats, &rendered, &combos);
+            report.case(Some(&rendered.files));
+            if !failures.is_empty() {
+                report_failures(&mut model, report, Some(&case), &rendered, &combos, failures);
+            }
+        }
+        for (k, v) in stats.counts { report.count(&format!("data-boundaries:{}", k), v); }
+        report.exhaustive.insert("numeric boundary values (i64/u64/f64 extremes, 2^53±1) × json/json5/yaml/yml/toml × mode".to_owned(), true);
+    }
     // ---- random graphs
     let per_thread: usize = if thorough { 260 } else { 40 };
     report.parallel(threads, |tid, r| {
